@@ -222,6 +222,26 @@ fn judge(c: &DCase, g: &Grouped, target: &std::path::PathBuf) -> Verdict {
             }
         }
     }
+    // a script that cannot be written must not look like a success: stdout is /dev/full, where every
+    // write fails with ENOSPC
+    if !scripts[0].stdout.is_empty() {
+        let mut cmd = std::process::Command::new(FCLONES_BIN);
+        cmd.args(&dry_args).current_dir(&tree).env_clear();
+        for (k, v) in Run::fclones(&g.cd).env {
+            cmd.env(k, v);
+        }
+        if let (Ok(full), Ok(report_file)) = (std::fs::OpenOptions::new().write(true).open("/dev/full"), {
+            let rp = g.cd.base.join("report.in");
+            std::fs::write(&rp, &g.report_bytes).and_then(|_| std::fs::File::open(&rp))
+        }) {
+            cmd.stdin(report_file).stdout(full).stderr(std::process::Stdio::piped());
+            if let Ok(o) = cmd.output() {
+                if o.status.code() == Some(0) {
+                    return fail("lost-script-reported-as-success", format!("`{} > /dev/full` exits 0 although no byte of the script could be written\nstderr: {}", mk(&dry_args, "1").cmdline(), String::from_utf8_lossy(&o.stderr)));
+                }
+            }
+        }
+    }
     let after_dry = Snapshot::take(&[&tree, target]);
     if !diff(&pristine, &after_dry, true).is_empty() {
         return fail("dry-run-modified-tree", diff(&pristine, &after_dry, true).describe());
@@ -378,7 +398,7 @@ pub fn check(tier: Tier) -> i32 {
     cleanup_process_scratch();
     ctx.finish(
         "exploration",
-        "proptest-generated dedupe scenarios as in C02 (shell-hostile names, hard links, symlinks with -S, roots, priorities, patterns, -n) x remove / link / link --soft / move; one report in five comes from `group --transform 'head -c 3'`, so that the members of a group differ in size. Per case: dry run with RAYON_NUM_THREADS 1, 2, 16 and with 8 threads under schedule perturbation by the interposer (scripts must be identical modulo the random temp suffix and must not touch the tree); script parsed into (kind, file) operations which must follow report group order and equal, as a set and by kind, the changes of a real run on the same tree (inventory diff); 'Would process N files / reclaim X' must equal 'Processed N files / reclaimed X' and N the number of script operations; for remove/link/link --soft the tree is rebuilt identically and the script is executed by bash: resulting tree (paths, types, bytes, symlink targets, hard-link partition) must equal the real run's. Non-trivial = >=2 operations from >=2 groups and a path needing quoting.",
+        "proptest-generated dedupe scenarios as in C02 (shell-hostile names, hard links, symlinks with -S, roots, priorities, patterns, -n) x remove / link / link --soft / move; one report in five comes from `group --transform 'head -c 3'`, so that the members of a group differ in size. Per case: dry run with RAYON_NUM_THREADS 1, 2, 16 and with 8 threads under schedule perturbation by the interposer (scripts must be identical modulo the random temp suffix and must not touch the tree; a non-empty script sent to /dev/full, where every write fails, must not end with exit status 0); script parsed into (kind, file) operations which must follow report group order and equal, as a set and by kind, the changes of a real run on the same tree (inventory diff); 'Would process N files / reclaim X' must equal 'Processed N files / reclaimed X' and N the number of script operations; for remove/link/link --soft the tree is rebuilt identically and the script is executed by bash: resulting tree (paths, types, bytes, symlink targets, hard-link partition) must equal the real run's. Non-trivial = >=2 operations from >=2 groups and a path needing quoting.",
         &["`dedupe` (reflink) is not compared: unsupported on the sandbox file systems, so a real run processes nothing", "access-time priorities are replaced because reading files between the runs changes atimes", "script lines are decoded with fclones' splitter (its agreement with bash is C17's claim); the bash execution is independent of it"],
     )
 }
